@@ -5,8 +5,12 @@ open Gwb
 #print axioms C09_no_cross_section_refused
 #print axioms C09_lift
 #print axioms C09_unit_direction
+#print axioms C09_section_by_distance
+#print axioms C09_projection_bounded
 #check @C09_2d_is_projected_3d
 #check @C09_velocity_projection
 #check @C09_no_cross_section_refused
 #check @C09_lift
 #check @C09_unit_direction
+#check @C09_section_by_distance
+#check @C09_projection_bounded
